@@ -319,6 +319,12 @@ def load_known(pid: str) -> Dict[str, Dict[str, Any]]:
 # the check base class
 # ---------------------------------------------------------------------------------------
 
+# tag of cases outside the property's quantifier: model and code are still compared on them, but a
+# difference is only recorded in the evidence (it is no broken correspondence), and the oracle must not
+# judge them.  Use it ONLY where the statement's quantifier really excludes the input.
+OUTSIDE = 'outside-quantifier'
+
+
 class Case:
     """one correspondence / oracle case"""
     __slots__ = ('kind', 'input', 'tags')
@@ -536,6 +542,7 @@ def run_check(check: Check, tier: str, seed: int, deadline_s: int) -> int:
         spans.append((len(reqs), len(reqs) + len(r)))
         reqs.extend(r)
     disagreements = []
+    outside_diffs = []
     driver_ok = os.path.exists(DRIVER)
     if driver_ok:
         try:
@@ -545,6 +552,11 @@ def run_check(check: Check, tier: str, seed: int, deadline_s: int) -> int:
                     continue
                 d = check.compare(c, o, answers[a:b])
                 if d is not None:
+                    if OUTSIDE in c.tags:
+                        # the case lies outside what the property quantifies over: the model mirrors the
+                        # code there only as an observation; a difference is recorded, it breaks nothing
+                        outside_diffs.append({'case': c.to_json(), 'diff': d})
+                        continue
                     disagreements.append({'case': c.to_json(), 'impl': o, 'model': answers[a:b], 'diff': d})
         except Infra as e:
             if ok:
@@ -572,6 +584,8 @@ def run_check(check: Check, tier: str, seed: int, deadline_s: int) -> int:
         'evaluations': len(cases), 'distinct_nontrivial': len(distinct), 'rule': check.nontrivial_rule,
         'samples': [c.to_json() for c in cases[:3]] + ([cases[-1].to_json()] if len(cases) > 3 else []),
         'model_requests': len(reqs), 'disagreements': len(disagreements),
+        'outside_quantifier_differences': len(outside_diffs),
+        'outside_quantifier_samples': [{'case': short(x['case'], 300), 'diff': x['diff'][:300]} for x in outside_diffs[:3]],
         'case_kinds': kinds, 'case_tags': tags, 'impl_error_classes': errs,
         'traces_validated_against_impl': len(cases) - len(disagreements),
         'exhaustive': False,
